@@ -25,6 +25,8 @@ class Ranking:
         :raises ValueError: If buckets are not disjoint
 
         """
+        # the argument is read twice below: one-shot iterables (generators, map objects) are materialized first
+        buckets = [list(bucket) for bucket in buckets]
         self._buckets: List[Set[Element]] = [{Element(x) for x in bucket} for bucket in buckets]
 
         # Initialize element_positions
